@@ -734,6 +734,15 @@ func Render(toks []Tok, lay Layout, decos []Deco) string {
 		}
 		for _, d := range rest {
 			switch d.Role {
+			case "raw":
+				// verbatim whitespace / text in the gap
+				b.WriteString(d.Text)
+				lineComment = false
+				atStart = strings.HasSuffix(d.Text, "\n")
+				if !atStart && d.Text != "" {
+					// the token follows immediately after the raw text
+					atStart = true
+				}
 			case "leading", "infix":
 				if !atStart {
 					b.WriteString("\n")
